@@ -133,5 +133,7 @@ C17Clauses(sol, g) ==
     <<"R17_buffer_steps", Len(g.buffers) = Len(sol.buffers) /\ \A i \in 1..Len(sol.buffers) :
           g.buffers[i] = BufferSegments(sol.buffers[i], sol.horizon)>>,
     <<"R17_nothing_else_on_the_gantt_axes", g.res.extra_lines = 0 /\ g.task.extra_lines = 0>>,
+    \* drawing the same solution again, the first figure still open, gives the same chart
+    <<"R17_redrawing_gives_the_same_chart", Len(g.res.redraw_diff) = 0 /\ Len(g.task.redraw_diff) = 0>>,
     <<"R17_buffer_count", Len(g.buffers) = Len(sol.buffers)>> }
 =============================================================================
